@@ -554,6 +554,8 @@ esl_buffer_Close(ESL_BUFFER *bf)
 	  }
 	}
 
+      while (bf->nretired) free(bf->retired[--bf->nretired]);
+      if (bf->retired)  free(bf->retired);
       if (bf->filename) free(bf->filename);
       if (bf->cmdline)  free(bf->cmdline);
       free(bf);
@@ -801,6 +803,7 @@ esl_buffer_SetStableAnchor(ESL_BUFFER *bf, esl_pos_t offset)
   bf->pos   -= ndel;
   if (bf->n) memmove(bf->mem, bf->mem+ndel, bf->n);
   bf->baseoffset += ndel;
+  bf->stable = TRUE;		/* from here on buffer_refill() neither shifts nor realloc()s <mem>, until all anchors are raised */
   return eslOK;
 }
 
@@ -837,7 +840,7 @@ esl_buffer_RaiseAnchor(ESL_BUFFER *bf, esl_pos_t offset)
 
   if (bf->anchor ==  offset - bf->baseoffset) {
     bf->nanchor--;
-    if (bf->nanchor == 0) bf->anchor = -1;
+    if (bf->nanchor == 0) { bf->anchor = -1; bf->stable = FALSE; } /* retired blocks are freed by the next buffer_refill() that reads, or by Close() */
   }
   return eslOK;
 }
@@ -1557,6 +1560,9 @@ buffer_create(ESL_BUFFER **ret_bf)
   bf->pos        = 0;
   bf->baseoffset = 0;
   bf->anchor     = -1;
+  bf->stable     = FALSE;
+  bf->retired    = NULL;
+  bf->nretired   = 0;
   bf->fp         = NULL;
   bf->filename   = NULL;
   bf->cmdline    = NULL;
@@ -1714,8 +1720,11 @@ buffer_refill(ESL_BUFFER *bf, esl_pos_t nmin)
 
   if (bf->pos > bf->n) ESL_EXCEPTION(eslEINCONCEIVABLE, "impossible position for buffer <pos>"); 
   
-  /* Relocation, shift left to conserve memory */
-  if (bf->balloc - bf->n < bf->pagesize && bf->pos > 0)
+  /* No stable anchor: pointers into blocks retired under an earlier one are dead now */
+  if (! bf->stable) while (bf->nretired) free(bf->retired[--bf->nretired]);
+
+  /* Relocation, shift left to conserve memory (never under a stable anchor: <mem> must not move) */
+  if (bf->balloc - bf->n < bf->pagesize && bf->pos > 0 && ! bf->stable)
     {
       if      (bf->anchor == -1)      ndel = bf->pos;
       else if (bf->anchor > bf->pos) { ndel = bf->pos;    bf->anchor -= ndel; } /* anchor ahead of the parser: keep everything from <pos> on */
@@ -1729,7 +1738,19 @@ buffer_refill(ESL_BUFFER *bf, esl_pos_t nmin)
       bf->baseoffset += ndel;
     }
 
-  if (bf->n + bf->pagesize > bf->balloc)
+  if (bf->n + bf->pagesize > bf->balloc && bf->stable && bf->mem)
+    { /* Under a stable anchor, pointers into <mem> must stay valid: retire the old block
+       * instead of realloc()ing it, and grow by doubling so that the retired blocks add up to < 2x */
+      esl_pos_t  newalloc = ESL_MAX(bf->n + bf->pagesize, 2 * bf->balloc);
+      char      *newmem;
+      ESL_REALLOC(bf->retired, sizeof(char *) * (bf->nretired + 1));
+      ESL_ALLOC  (newmem,      sizeof(char)   * newalloc);
+      if (bf->n) memcpy(newmem, bf->mem, bf->n);
+      bf->retired[bf->nretired++] = bf->mem;
+      bf->mem    = newmem;
+      bf->balloc = newalloc;
+    }
+  else if (bf->n + bf->pagesize > bf->balloc)
     {
       ESL_REALLOC(bf->mem, sizeof(char) * (bf->n + bf->pagesize));
       bf->balloc = bf->n + bf->pagesize;
